@@ -1,5 +1,6 @@
 #![allow(dead_code)]
 mod adversarial;
+mod aschema;
 mod astwalk;
 mod asyncx;
 mod compat;
@@ -50,6 +51,7 @@ fn main() {
         "scalars-revalidate" => scalars::revalidate(rest),
         "digest" => digest::run(rest),
         "exec-replay" => exec::replay(rest),
+        "schema-cases" => aschema::cases(rest),
         "async-replay" => asyncx::replay(rest),
         "exec-record" => exec::record(rest),
         "coerce-replay" => coerce::replay(rest),
